@@ -67,7 +67,7 @@ public:
   int nmodels;
   bool problem_done;
   std::ostringstream problem;
-  Spy() : nmodels(0), problem_done(false), oracle_done(false), want_oracle(false), want_x(false) {}
+  Spy() : nmodels(0), problem_done(false), oracle_done(false), want_oracle(false), want_x(false), shrink_masks(0), shrink_mismatches(0) {}
 
   class inverse *current() {
     Phreeqc *p = this->PhreeqcPtr;
@@ -245,6 +245,84 @@ public:
   // solve_inverse().  For every mask that contains the final-solution bit, solve_with_mask() is
   // called exactly as solve_inverse()/minimal_solve() call it and (kode==0, support) is recorded,
   // support being extracted with the same equal(inv_delta1[..],0,TOL) tests the search uses.
+
+  // ---- shrink check.  SPECIFICATION of shrink() (the routine that prepares the tableau of a sub-model for cl1), written here from
+  // its contract, independently of Phreeqc::shrink():
+  //   columns kept = all unknowns except: the column (and isotope columns) of every phase whose bit is 0; for every initial solution
+  //   whose bit is 0 its fraction, all its epsilons, its pH and isotope columns; every epsilon..last column that is identically zero;
+  //   the right-hand side is always kept.  Kept columns are compacted in order, and the SIGN CONSTRAINT of a kept column travels with it
+  //   (delta'[new] = delta[old]); nothing else touches the sign vector.  Rows: an optimisation row is dropped when its kept entries are
+  //   all (bitwise) zero, an equality / inequality row when all are within toler of zero; kept rows are compacted in order.
+  // For every mask of the oracle table the engine's shrink() output (sizes, col_back, row_back, sign vector, tableau entries) is compared
+  // bit for bit with this specification.
+  std::ostringstream shrink_bad; int shrink_masks, shrink_mismatches;
+  void shrink_check(class inverse *inv, unsigned long mask) {
+    Phreeqc *p = this->PhreeqcPtr;
+    size_t mc = p->max_column_count, mr = p->max_row_count;
+    size_t nph = inv->phases.size(), ns = inv->count_solns, n0 = p->count_unknowns;
+    int k0 = (int)p->row_mb, l0 = (int)(p->row_epsilon - p->row_mb), m0 = (int)(p->count_rows - p->row_epsilon);
+    int rows0 = k0 + l0 + m0;
+    // --- specification
+    std::vector<int> keep(n0 + 1, 1);
+    size_t niso = inv->isotopes.size(), nisu = inv->isotope_unknowns.size();
+    for (size_t i = 0; i < nph; i++) if (!((mask >> i) & 1ul)) {
+      keep[p->col_phases + i] = 0;
+      for (size_t j = 0; j < niso; j++) keep[p->col_phase_isotopes + i * niso + j] = 0;
+    }
+    for (size_t i = 0; i + 1 < ns; i++) if (!((mask >> (nph + i)) & 1ul)) {
+      keep[i] = 0;
+      for (size_t j = 0; j < inv->elts.size(); j++) keep[p->col_epsilon + j * ns + i] = 0;
+      if (inv->carbon == TRUE) keep[p->col_ph + i] = 0;
+      for (size_t j = 0; j < nisu; j++) keep[p->col_isotopes + i * nisu + j] = 0;
+    }
+    for (size_t c = p->col_epsilon; c < n0; c++) if (keep[c]) {
+      bool allzero = true;
+      for (int r = 0; r < rows0; r++) if (p->my_array[(size_t)r * mc + c] != 0) { allzero = false; break; }
+      if (allzero) keep[c] = 0;
+    }
+    std::vector<int> cb; std::vector<double> dl;
+    for (size_t c = 0; c <= n0; c++) if (keep[c]) { cb.push_back((int)c); dl.push_back(p->delta[c]); }
+    int n1 = (int)cb.size() - 1;
+    std::vector<int> rb; int k1 = 0, l1 = 0, m1 = 0;
+    for (int r = 0; r < rows0; r++) {
+      bool drop = true;
+      for (int c = 0; c < n1; c++) {
+        double v = p->my_array[(size_t)r * mc + cb[c]];
+        if (r < k0) { uint64_t u; memcpy(&u, &v, 8); if (u != 0) { drop = false; break; } }
+        else if (fabs(v) > p->toler) { drop = false; break; }
+      }
+      if (drop) continue;
+      rb.push_back(r);
+      if (r < k0) k1++; else if (r < k0 + l0) l1++; else m1++;
+    }
+    // --- engine
+    std::copy(p->my_array.begin(), p->my_array.begin() + mc * mr, p->array1.begin());
+    std::copy(p->delta.begin(), p->delta.begin() + mc, p->delta2.begin());
+    int k = k0, l = l0, m = m0, n = (int)n0;
+    p->shrink(inv, &p->my_array[0], &p->array1[0], &k, &l, &m, &n, mask, &p->delta2[0], &p->col_back[0], &p->row_back[0]);
+    // --- compare
+    std::ostringstream d;
+    if (k != k1 || l != l1 || m != m1 || n != n1) d << "sizes (k,l,m,n) engine " << k << "," << l << "," << m << "," << n << " specification " << k1 << "," << l1 << "," << m1 << "," << n1;
+    else {
+      for (int c = 0; c <= n1 && d.str().empty(); c++) if (p->col_back[c] != cb[c]) d << "col_back[" << c << "] engine " << p->col_back[c] << " specification " << cb[c];
+      for (int c = 0; c < n1 && d.str().empty(); c++) {
+        if (memcmp(&p->delta2[c], &dl[c], 8) != 0)
+          d << "sign constraint of column " << (p->col_name[cb[c]] ? p->col_name[cb[c]] : "?") << " handed to cl1 is " << p->delta2[c] << ", setup_inverse declared " << dl[c];
+      }
+      for (int r = 0; r < k1 + l1 + m1 && d.str().empty(); r++) {
+        if (p->row_back[r] != rb[r]) { d << "row_back[" << r << "] engine " << p->row_back[r] << " specification " << rb[r]; break; }
+        for (int c = 0; c <= n1; c++) {
+          double want = p->my_array[(size_t)rb[r] * mc + cb[c]];
+          if (memcmp(&p->array1[(size_t)r * mc + c], &want, 8) != 0) { d << "tableau entry (" << r << "," << c << ") engine " << p->array1[(size_t)r * mc + c] << " specification " << want; break; }
+        }
+      }
+    }
+    shrink_masks++;
+    if (!d.str().empty()) {
+      if (shrink_mismatches < 5) shrink_bad << (shrink_mismatches ? "," : "") << "{\"mask\":" << mask << ",\"what\":" << jstr(d.str()) << "}";
+      shrink_mismatches++;
+    }
+  }
   std::ostringstream oracle; bool oracle_done; std::string oracle_note;
   void tabulate() {
     Phreeqc *p = this->PhreeqcPtr;
@@ -263,6 +341,7 @@ public:
     try {
       for (unsigned long mask = 0; mask < (1ul << nb); mask++) {
         if (!(mask & top)) continue;
+        shrink_check(inv, mask);
         int rc = p->solve_with_mask(inv, mask);
         unsigned long sup = 0;
         for (size_t i = 0; i < ns; i++) if (p->equal(p->inv_delta1[i], 0.0, TOL) == FALSE) sup |= 1ul << (i + nph);
@@ -336,6 +415,7 @@ int main(int argc, char **argv) {
     o << ",\"problem\":" << (ip->problem_done ? ip->problem.str() : std::string("null"));
     o << ",\"models\":[" << ip->models.str() << "]";
     o << ",\"oracle\":[" << ip->oracle.str() << "],\"oracle_note\":" << jstr(ip->oracle_note);
+    o << ",\"shrink\":{\"masks\":" << ip->shrink_masks << ",\"mismatches\":" << ip->shrink_mismatches << ",\"first\":[" << ip->shrink_bad.str() << "]}";
     o << "}";
     std::cout << o.str() << std::endl;
     delete ip;
